@@ -1,6 +1,6 @@
 \* repaired design, fine-grained (the windows inside get_or_insert and clear), 2 threads, two shards
 CONSTANTS Threads = {t1, t2}  KA = {k1, k2, k3}  KB = {k4}  Cap = 2  MaxCalls = 2  MaxHeld = 2  Fine = TRUE  InitMayFail = TRUE
-          BudgetPages = 3  Ballast = 30  ClearKeepsPinned = TRUE  ReleaseOnInitError = TRUE
+          BudgetPages = 3  Ballast = 30  ClearKeepsPinned = TRUE  ClearCountsUnderLock = TRUE  ReleaseOnInitError = TRUE
 CONSTANT Keys <- KeysAll  ShardOf <- ShardsOneTwo
 SYMMETRY Sym
 SPECIFICATION Spec
